@@ -653,7 +653,7 @@ def lmax0_rejected(case, ctx):
     raised = False
     try:
         CiderGrids(mol, lmax=lmax)
-    except ValueError:
+    except Exception:
         raised = True
     ctx.check(raised, ("lmax_below_1_accepted",), lmax=lmax)
     g = CiderGrids(mol, lmax=1)
